@@ -26,6 +26,9 @@ BUDGET = {
     "C16": (2000, 100000), "C17": (2000, 100000), "C18": (2000, 100000),
     "C19": (2000, 100000), "C20": (2000, 100000),
 }
+# extra runs (a fraction of the budget, run indices continue after the main ones) from another
+# profile whose histories exercise the same property from a different side
+EXTRA_PROFILE = {"C08": ("C08T", 0.25)}   # the log tools from the command line, between whole-program builds
 SAN_SHARE = {"C13": 1.0}          # fraction of runs on the ASan+UBSan binary
 DEFAULT_SAN_SHARE = 0.08
 LOGDRV = {"C08", "C09"}
@@ -266,6 +269,21 @@ def main():
         lines += l
         crashes += [(i, rc, err, "san") for i, rc, err in c]
 
+    n_total = nruns
+    extra_prof = None
+    if prop in EXTRA_PROFILE:
+        extra_prof, share = EXTRA_PROFILE[prop]
+        n_extra = max(1, int(nruns * share))
+        l, c = run_workers(exe, extra_prof, tier, seed, nruns, n_extra, outdir, cmd="run")
+        for dd in l:
+            dd["profile"] = extra_prof
+        lines += l
+        crashes += [(i, rc, err, "plain") for i, rc, err in c]
+        n_total = nruns + n_extra
+
+    def profile_of(idx):
+        return extra_prof if extra_prof and idx >= nruns else prop
+
     # ---- C04: small plain DAGs re-run under many schedules; completion orders reached vs possible
     small_cov = None
     if prop == "C04":
@@ -351,7 +369,7 @@ def main():
 
     def examine(d):
         """(harness problem | None, [(v, finding | None)]) for one violating run."""
-        path = os.path.join(outdir, "replay_%s_%d_%d.json" % (prop, seed, d["run"]))
+        path = os.path.join(outdir, "replay_%s_%d_%d.json" % (d.get("profile", prop), seed, d["run"]))
         use = exe_san if d.get("san") else exe
         vs = [v for v in d["viol"] if v["prop"] == prop]
         if not os.path.exists(path):
@@ -400,7 +418,7 @@ def main():
         hp, out = results[d["run"]]
         if hp:
             harness_problem = hp
-        path = os.path.join(outdir, "replay_%s_%d_%d.json" % (prop, seed, d["run"]))
+        path = os.path.join(outdir, "replay_%s_%d_%d.json" % (d.get("profile", prop), seed, d["run"]))
         for v, attributed in out:
             if attributed:
                 known_hit[(attributed["id"], attributed["what"])] += 1
@@ -409,7 +427,7 @@ def main():
     # crashes of workers: confirm by running that seed alone
     for idx, rc, err, which in crashes:
         use = exe_san if which == "san" else exe
-        l, c = run_workers(use, prop, tier, seed, idx, 1, outdir, cmd=cmd, nworkers=1)
+        l, c = run_workers(use, profile_of(idx), tier, seed, idx, 1, outdir, cmd=("run" if profile_of(idx) != prop else cmd), nworkers=1)
         if c:
             cls = "sanitizer" if rc == 77 or "Sanitizer" in err or "runtime error" in err else "abnormal_exit"
             path = os.path.join(outdir, "crash_%s_%d_%d.json" % (prop, seed, idx))
@@ -521,10 +539,10 @@ def main():
         print("HARNESS PROBLEM: " + harness_problem)
         sys.exit(2)
     got = set(dd["run"] for dd in lines)
-    missing = [i for i in range(nruns) if i not in got and i not in set(c[0] for c in crashes)]
+    missing = [i for i in range(n_total) if i not in got and i not in set(c[0] for c in crashes)]
     if missing:
         # every run must be accounted for: a result line that is lost could have been a violation
-        print("HARNESS PROBLEM: %d of %d runs left no result line (first: %s)" % (len(missing), nruns, missing[:5]))
+        print("HARNESS PROBLEM: %d of %d runs left no result line (first: %s)" % (len(missing), n_total, missing[:5]))
         sys.exit(2)
     sys.exit(0)
 
